@@ -647,7 +647,9 @@ theorem verify_single_walk (hf : HashFns) (n i : Nat) (hn : 1 ≤ n) (hi : i < n
   have hidx : nodeIdx (getHeight n) i 0 = 2 ^ getHeight n + i := by simp [nodeIdx]
   have hpos : 0 < 2 ^ getHeight n := Nat.pow_pos (by decide)
   have hne : (2 ^ getHeight n + i != 0) = true := by simp
-  unfold verifyProof at h
+  rw [verifyProof_eq, Bool.and_eq_true] at h
+  replace h := h.2
+  unfold verifyProofOrig at h
   simp only [show ¬ n = 0 by omega, if_false] at h
   unfold calcPathNodes at h
   simp only [List.length_cons, List.length_nil, bne_self_eq_false, Bool.false_eq_true, if_false] at h
@@ -691,6 +693,96 @@ theorem newLoc_nodeIdx_some (h i l : Nat) (hi : i < 2 ^ (h - 1)) (hl : l + 1 ≤
   have e30 : (2:Nat) ^ 30 = 1073741824 := by decide
   rw [if_neg (by omega), if_neg (by omega), if_neg (by omega), if_neg (by omega)]
   congr 2 <;> omega
+
+/-! ### the check of the index list (`idxsValid`) on leaf positions -/
+
+theorem layerStructure_getD_zero (n : Nat) : (layerStructure n).getD 0 0 = n := by
+  unfold layerStructure
+  have h : 0 < getHeight n := by simp [getHeight]
+  simp [List.getD, h, layerMax]
+
+theorem distinctIdx_iff (l : List Nat) : distinctIdx l = true ↔ l.Nodup := by
+  induction l with
+  | nil => simp [distinctIdx]
+  | cons a r ih => simp [distinctIdx, ih, List.nodup_cons]
+
+theorem filter_ne_zero_leaves (h : Nat) (pos : List Nat) :
+    (pos.map fun p => 2 ^ h + p).filter (· != 0) = pos.map fun p => 2 ^ h + p := by
+  rw [List.filter_eq_self]
+  intro a ha
+  simp only [List.mem_map] at ha
+  obtain ⟨p, _, rfl⟩ := ha
+  have : 0 < 2 ^ h := Nat.pow_pos (by decide)
+  simp only [bne_iff_ne, ne_eq]; omega
+
+theorem nodup_leaves (h : Nat) (pos : List Nat) :
+    (pos.map fun p => 2 ^ h + p).Nodup ↔ pos.Nodup := by
+  simp only [List.Nodup, List.pairwise_map]
+  constructor <;> intro hp <;> refine hp.imp ?_ <;> intro a b hab <;> omega
+
+/-- a leaf position inside the tree passes the index check (height at most 30: the 32-bit index parser) -/
+theorem idxInTree_leaf {n i : Nat} (hn : 1 ≤ n) (hi : i < n) (hb : getHeight n ≤ 30) :
+    idxInTree (layerStructure n) (getHeight n) (2 ^ getHeight n + i) = true := by
+  have hh1 : 1 ≤ getHeight n := by simp [getHeight]
+  have := newLoc_nodeIdx_some (getHeight n) i 0 (lt_pow_height hn hi) (by omega) hb
+  simp only [nodeIdx, Nat.sub_zero, Nat.pow_zero, Nat.div_one] at this
+  unfold idxInTree
+  rw [this]
+  dsimp only
+  rw [layerStructure_getD_zero]
+  simpa using hi
+
+/-- a leaf-layer index that passes the index check is a position inside the tree -/
+theorem idxInTree_leaf_lt {n p : Nat}
+    (h : idxInTree (layerStructure n) (getHeight n) (2 ^ getHeight n + p) = true) : p < n := by
+  unfold idxInTree at h
+  split at h
+  · cases h
+  · rename_i loc hloc
+    by_cases hp : p < 2 ^ getHeight n
+    · have hl := newLoc_nodeIdx (getHeight n) p 0 hp (Nat.zero_le _) loc
+        (by simpa [nodeIdx] using hloc)
+      subst hl
+      dsimp only at h
+      rw [layerStructure_getD_zero] at h
+      simpa using h
+    · exfalso
+      have hlog : getHeight n + 1 ≤ Nat.log2 (2 ^ getHeight n + p) := by
+        have hpos : 0 < 2 ^ getHeight n := Nat.pow_pos (by decide)
+        rw [Nat.le_log2 (by omega), Nat.pow_succ]; omega
+      unfold newLoc at hloc
+      simp only at hloc
+      split at hloc
+      · cases hloc
+      · split at hloc
+        · cases hloc
+        · split at hloc
+          · cases hloc
+          · split at hloc
+            · cases hloc
+            · omega
+
+theorem idxsValid_leaves {n : Nat} (hn : 1 ≤ n) (hb : getHeight n ≤ 30) (pos : List Nat)
+    (hnd : pos.Nodup) (hlt : ∀ p ∈ pos, p < n) :
+    idxsValid n (pos.map fun p => 2 ^ getHeight n + p) = true := by
+  unfold idxsValid
+  rw [filter_ne_zero_leaves, Bool.and_eq_true, distinctIdx_iff, nodup_leaves, List.all_eq_true]
+  refine ⟨hnd, ?_⟩
+  intro a ha
+  simp only [List.mem_map] at ha
+  obtain ⟨p, hp, rfl⟩ := ha
+  exact idxInTree_leaf hn (hlt p hp) hb
+
+/-- an index list of leaf-layer positions that passes the check: the positions are pairwise distinct and
+inside the tree (no bound on the size is needed in this direction) -/
+theorem idxsValid_leaves_inv {n : Nat} (pos : List Nat)
+    (h : idxsValid n (pos.map fun p => 2 ^ getHeight n + p) = true) :
+    pos.Nodup ∧ ∀ p ∈ pos, p < n := by
+  unfold idxsValid at h
+  rw [filter_ne_zero_leaves, Bool.and_eq_true, distinctIdx_iff, nodup_leaves, List.all_eq_true] at h
+  refine ⟨h.1, ?_⟩
+  intro p hp
+  exact idxInTree_leaf_lt (h.2 _ (List.mem_map.2 ⟨p, hp, rfl⟩))
 
 theorem locIndex_some (h l' k' : Nat) (hl : l' + 2 ≤ h) (hk : k' < 2 ^ (h - 1 - l')) (hb : h ≤ 30) :
     locIndex (l', k') h = some (2 ^ (h - l') + k') := by
@@ -886,7 +978,9 @@ theorem verify_single_complete (hf : HashFns) (n i : Nat) (hn : 1 ≤ n) (hi : i
   have hi1 := lt_pow_height hn hi
   have hiH : i < 2 ^ getHeight n :=
     Nat.lt_of_lt_of_le hi1 (Nat.pow_le_pow_right (by decide) (by omega))
-  unfold verifyProof
+  rw [verifyProof_eq, Bool.and_eq_true]
+  refine ⟨by simpa using idxsValid_leaves hn hb [i] (by simp) (by simpa using hi), ?_⟩
+  unfold verifyProofOrig
   simp only [show ¬ n = 0 by omega, if_false]
   unfold calcPathNodes
   simp only [List.length_cons, List.length_nil, bne_self_eq_false, Bool.false_eq_true, if_false]
